@@ -300,6 +300,31 @@ def run(ctx):
             ctx.case(None, key=("build_tool", repr(words), stdin_text))
             if valid != (res == "ok") or (not valid and connects):
                 ctx.violate("connect-despite-error", {"input": {"words": words, "stdin": stdin_text}, "observed": "build_tool -> %s, connection attempts: %d, script valid: %s" % (res, len(connects), valid)})
+        # `vncdo -`: the script on standard input is tokenised exactly like a script file (POSIX shlex: quotes group and are
+        # removed, backslash escapes, # comments) and compiles to the operations written
+        stdin_texts = ['type "hello world"\nkey a\n', "type 'x y' key b\n", 'type a\\ b\n', 'key a # comment\ntype "#"\n', "type ''\nkey '-'\n",
+                       'move 1 2 # go\nclick 1\n', 'type "it\'s"\n', "key ctrl-c\npause 0.5\n"]
+        for text in stdin_texts:
+            fake = mock.Mock()
+            with mock.patch.object(cmd, "VNCDoCLIFactory", lambda fake=fake: fake), mock.patch.object(cmd, "factory_connect", lambda *a: None), \
+                    mock.patch.object(cmd, "reactor", mock.Mock()), mock.patch.object(sys, "stdin", io.StringIO(text)):
+                opts = mock.Mock(verbose=0, delay=0, warp=1.0, incremental_refreshes=False, host="h", port=1, address_family=0)
+                try:
+                    cmd.build_tool(opts, ["-"])
+                    res = "ok"
+                except SystemExit:
+                    res = "exit"
+                except Exception as e:  # noqa
+                    res = "raise " + exc_class(e)
+            got = [(NAMES.get(c.args[0], None),) + tuple(c.args[1:]) for c in fake.deferred.addCallback.call_args_list if c.args and c.args[0] in NAMES]
+            lex = shlex.shlex(io.StringIO(text), posix=True); lex.whitespace_split = True
+            want = spec_parse(list(lex), 0, 1.0, {}, False)
+            ctx.count("stdin_scripts")
+            ctx.case(None, key=("stdin", text))
+            if want is None or res != "ok" or repr([tuple(o) for o in got]) != repr([tuple(o) for o in want]):
+                ctx.violate("stdin-script", {"input": {"argv": ["vncdo", "-"], "stdin": text},
+                                             "observed": "build_tool -> %s, operations %r; the text stands for %r" % (res, got, want),
+                                             "how": "build_tool(['-']) with the script on sys.stdin and a recording factory"})
         # the real command line: whatever follows the options is the script, word for word - also words that begin with '-'
         # (negative coordinates, a typed text that looks like an option, a trailing "-w 4")
         argv_cases = [["move", "-5", "10"], ["type", "-p", "key", "a"], ["key", "a", "-w", "4"], ["type", "--nocursor"], ["key", "-"],
